@@ -28,6 +28,9 @@ class Obj:
 def mk_key(kind, code, r):
     """(python value, model attr) for an abstract key code (small int)"""
     if code is None:
+        if kind == 'callable' and r.random() < 0.6:
+            # a callable key whose call returns None: as good as a None key (smallest)
+            return (lambda: None), {'a': 'none'}
         return None, {'a': 'none'}
     if code == 'missing':
         return 'MISSING', {'a': 'missing'}
